@@ -285,6 +285,18 @@ def run(ctx):
                      key=(kind, pw, repr(sorted(p.items())), delivery) if len(flat) > 1 else None)
             meta.append((len(lines_all), len(zlog), len(chunks), flat, rp))
             lines_all += model_lines(kind, opts, zlog, chunks, auth_response_of(c, kind, opts))
+            if delivery == "reactive":
+                first_factory = c.factory
+        # a second connection made by the SAME factory (reconnect, a second protocol instance): the handshake is the same
+        c2, trace2, _ = new_client(kind, **opts)
+        c2.factory = first_factory
+        first_factory.events = trace2
+        flat2 = [t for q in feed_impl(c2, trace2, [s[0] for s in steps if s[0]]) for t in q]
+        ctx.count("second_connection_of_a_factory")
+        got2 = flat2 if not established else flat2[:len(want)]
+        if until_close(got2) != until_close(want):
+            ctx.violate("handshake-second-connection", dict(rp, input=dict(rp["input"], delivery="reactive", connection="the second one made by the same factory object (the first one ran the same conversation)"),
+                                                            observed="client did %r, RFC prescribes %r" % (until_close(got2)[-4:], until_close(want)[-4:])))
     mout = ctx.drive(lines_all)
     if mout is not None:
         for off, nz, nch, flat, rp in meta:
